@@ -1249,6 +1249,10 @@ func RunOp(op []string, h Hooks) string {
 		if !ok {
 			pe = errors.New(strings.ReplaceAll(fmt.Sprint(escaped), " ", "_"))
 		}
+		if _, isRt := pe.(runtime.Error); isRt && strings.Contains(pe.Error(), "nil pointer dereference") {
+			// a call of a nil function value (the only nil dereference the path can make: a nil WithAcceptable function)
+			return fmt.Sprintf("log=%s runs=%d body=%s ret=nilcall mark=%s esc=1 cv=%s", h.Plan.Log(), runs, bodyOut, mark, cv)
+		}
 		return fmt.Sprintf("log=%s runs=%d body=%s ret=%s mark=%s esc=1 cv=%s", h.Plan.Log(), runs, bodyOut,
 			ClassifyT(pe, h.Extra, h.Texts), mark, cv)
 	}
